@@ -201,6 +201,18 @@ func main() {
 		for _, id := range ids {
 			fmt.Println(id)
 		}
+	case "runs":
+		// every registered run with its quick and thorough arguments (review aid)
+		var ids []string
+		for id := range specs {
+			ids = append(ids, id)
+		}
+		sort.Strings(ids)
+		for _, id := range ids {
+			for _, r := range specs[id].Runs {
+				fmt.Printf("%s\t%-45s quick=%v thorough=%v\n", id, r.Name, r.Quick, r.Thorough)
+			}
+		}
 	case "labels":
 		// assertion labels a spec requires to be reached (input of tools/twin.sh)
 		if sp, ok := specs[os.Args[2]]; ok {
